@@ -17,7 +17,7 @@ def x86_queries(tier):
         offs = 16 if "check" in k else 32
         vsets = [(minv + 1, xor_full, 0), (minv, xor_sub, offs), (minv + 3, xor_sub, 0), (8, xor_sub, offs)]
         if not quick:
-            vsets += [(12, xor_sub, 0), (20, xor_sub, offs), (minv + 1, xor_full, offs)]
+            vsets += [(12, xor_sub, 0), (20, xor_sub[:40], offs), (minv + 1, xor_full, offs)]
         for vects, lens, off in vsets:
             for i, ls in enumerate(chunks(lens, 24 if quick else 16)):
                 qs.append(Query("x86/%s/v%d/len%d-%d/o%d" % (k, vects, ls[0], ls[-1], off), R,
@@ -27,7 +27,7 @@ def x86_queries(tier):
                         core=True, family="x86/%s/invalid" % k))
     pq_lens = [32 * i for i in range(0, 11 if quick else 21)]
     for k in ("pq_gen_sse", "pq_gen_avx", "pq_gen_avx2", "pq_gen_avx512"):
-        vs = [4, 5, 6, 8] if quick else [4, 5, 6, 7, 8, 10, 12, 16, 20]
+        vs = [4, 5, 6, 8] if quick else [4, 5, 6, 7, 8, 10, 12, 20]
         for vects in vs:
             for off in ([0] if quick and vects != 5 else [0, 32]):
                 for i, ls in enumerate(chunks(pq_lens, 4)):
@@ -37,8 +37,8 @@ def x86_queries(tier):
         bad_len = [8, 24, 33, 47] if k in ("pq_gen_sse", "pq_gen_avx") else [8, 16, 24, 33, 48]
         qs.append(Query("x86/%s/invalid" % k, R, dict(kernel=k, invalid=[[3, 64], [0, 64], [2, 64], [-1, 64]] + [[6, b] for b in bad_len]),
                         core=True, family="x86/%s/invalid" % k))
-    chk_lens = [16 * i for i in range(0, 11 if quick else 25)]
-    for vects in ([4, 5, 6] if quick else [4, 5, 6, 8, 10, 12]):
+    chk_lens = [16 * i for i in range(0, 11 if quick else 17)]
+    for vects in ([4, 5, 6] if quick else [4, 5, 6, 8, 10]):
         for off in ([0] if quick and vects != 5 else [0, 16]):
             for i, ls in enumerate(chunks(chk_lens, 3)):
                 qs.append(Query("x86/pq_check_sse/v%d/len%d-%d/o%d" % (vects, ls[0], ls[-1], off), R,
